@@ -15,6 +15,7 @@ mod sat;
 mod desc;
 mod psbt;
 mod policy;
+mod poltext;
 mod tables;
 mod tap;
 mod validate;
@@ -54,6 +55,7 @@ fn main() {
         "eqord" => eqord::run(&args[2..]),
         "translate" => translate::run(&args[2..]),
         "policy" => policy::run(&args[2..]),
+        "poltext" => poltext::run(&args[2..]),
         "robust" => robust::run(&args[2..]),
         other => {
             eprintln!("unknown engine {}", other);
